@@ -201,6 +201,8 @@ def run(prog, tier):
 
     obs.extend(cancellation_obligations(prog, "difference-before-square", ['inference/gp/covariance.py']))
     obs.extend(dtype_hazard_obligations(prog, "float-arithmetic", ['inference/gp/covariance.py', 'inference/gp/mean.py']))
+    from .common import call_order_obligations
+    obs.extend(call_order_obligations(prog, "arguments-in-order", ['inference/gp/covariance.py', 'inference/gp/mean.py']))
 
     obs.extend(memo_obligations(prog, "cache-key", [c for b in ("CovarianceFunction", "MeanFunction") for c in [prog.cls(b)] + prog.subclasses(b)]))
 
